@@ -59,7 +59,7 @@ def build(U):
                 && final(self).store.clusters@[k].epoch == final(self).store.global_epoch && final(self).store.clusters@[k].config == default_cluster_config,''')
     f.after('let chunk_stores = Self::proxy_resource_to_chunk_store(proxy_resource_arr, true);',
             "        proof { assert(chunks_registered(self.store.all_proxies@.dom(), chunk_stores@)); }")
-    f.after('let epoch = self.store.bump_global_epoch();', "        let ghost s1 = *self.store;\n        let ghost cn = cluster_name;")
+    f.after('let epoch = self.store.bump_global_epoch()', "        let ghost s1 = *self.store;\n        let ghost cn = cluster_name;")
     INV = ("self.store.all_proxies@.dom() == s1.all_proxies@.dom(), self.store.clusters@ == s1.clusters@, self.store.global_epoch == s1.global_epoch,\n"
            "                    self.store.failed_proxies@ == s1.failed_proxies@, self.store.failures@ == s1.failures@, self.store.version == s1.version,\n"
            "                    chunks_registered(s1.all_proxies@.dom(), cluster_store.chunks@), vstd::std_specs::hash::obeys_key_model::<String>(),")
